@@ -28,6 +28,7 @@ mod sq;
 mod sqlparse;
 mod stmt;
 mod ddl;
+mod api;
 mod util;
 
 use std::collections::{BTreeMap, HashSet};
